@@ -1219,7 +1219,9 @@ def vf4(ctx, c):
     for label_, disk_ok, cas_ok, want_kind, want_list in (("a disk image", True, True, "DISK", disk_listing), ("a cassette image", False, True, "CASSETTE", tape_listing),
                                                            ("neither", False, False, "BINARY", []),
                                                            # a tape whose listing is empty (it begins with a file without data) is still a tape
-                                                           ("a cassette image that lists no file", False, "empty", "CASSETTE", [])):
+                                                           ("a cassette image that lists no file", False, "empty", "CASSETTE", []),
+                                                           # ... and a disk without files (a freshly formatted image) is still a disk
+                                                           ("a disk image that lists no file", "empty", True, "DISK", [])):
         envs = dict(ctx.env)
         for cn_ in KINDS.values():
             envs[cn_] = _Csn(cn_)
@@ -1229,6 +1231,8 @@ def vf4(ctx, c):
         def lister(r, a, _d=disk_ok, _c=cas_ok, _seen=consulted):
             _seen.append(r.cls)
             if r.cls == "DiskFile":
+                if _d == "empty":
+                    return []
                 if _d:
                     return list(disk_listing)
                 raise _Rsn("raise:VirtualFileValidationError")
